@@ -321,6 +321,24 @@ def run_c15(rep, tier, seed):
                     except Exception:
                         pass
                     f = roundtrip_case(ps, comb, val, h, w, exp)
+                if f is None and h >= 2 and w >= 2:
+                    # the same size again after a text of THAT size was refused (one border segment inside a room: redundant)
+                    try:
+                        vert = [[1 if (y, x) == (0, 0) else 0 for x in range(w - 1)] for y in range(h)]
+                        hori = [[0] * w for _ in range(h - 1)]
+                        env_ = ps.CombinatorEnv(height=h, width=w)
+                        md = lambda: ps.MultiDigit(base=2, digits=5)
+                        tb = ps.Tupl(ps.Grid(md(), height=h, width=w - 1), ps.Grid(md(), height=h - 1, width=w)).serialize(env_, [([vert], [hori])], 0)[1]
+                        refused = False
+                        try:
+                            refused = comb.deserialize(env_, tb + "g" * 9, 0) is None
+                        except ValueError:
+                            refused = True
+                        rep.coverage["refused_texts_before_a_round_trip"] = rep.coverage.get("refused_texts_before_a_round_trip", 0) + (1 if refused else 0)
+                    except Exception:
+                        pass
+                    n += 1
+                    f = roundtrip_case(ps, comb, val, h, w, exp)
                 if f:
                     sig = "roundtrip-shared-instance:%s:%s" % (top, f["kind"])
                     if sig not in seen:
